@@ -46,3 +46,31 @@ func ProbeSymbolic() {
 	vstub.Assert("probe.val", len(f.Enums) == 1 && f.Enums[0].Options[0].UintValue == uint64(10+int(d-'0')))
 	vstub.Reach("probe")
 }
+
+// ProbeUnionTail: engine bring-up for a concrete input (see DESIGN, C10).
+func ProbeUnionTail() {
+	x := []byte("struct A {}\nmessage B {}\nenum E {}\nunion V { 1 -> message D {} 2 -> struct C {\n} }\n\nstruct ZzTail { int32 q; }\n")
+	f, _, err := bebop.ReadFile(reader(x))
+	vstub.Assert("probe.err", err == nil)
+	vstub.Assert("probe.tail", hasTail(f))
+	vstub.Reach("probe")
+}
+
+func ProbeC10Pos() { C10A(461, c10Positions(), 1) }
+
+func ProbeC10NL() {
+	host := c10Hosts[7].text
+	p := 78
+	t := vstub.NondetBytes(1)
+	vstub.Assume(t[0] == '\n')
+	x := append(append(append([]byte{}, host[:p]...), t...), host[p:]...)
+	_, _, e1 := bebop.ReadFile(reader(x))
+	y := append(append([]byte{}, x...), c10Tail...)
+	f2, _, e2 := bebop.ReadFile(reader(y))
+	vstub.Assert("probe.e1", e1 == nil)
+	vstub.Assert("probe.e2", e2 == nil)
+	if e1 == nil && e2 == nil {
+		vstub.Assert("probe.tail", hasTail(f2))
+	}
+	vstub.Reach("probe")
+}
